@@ -212,6 +212,9 @@ impl Database {
             drop(layout);
         }
 
+        #[cfg(feature = "verif")]
+        verif::point("create_region:before_layout_mut");
+
         debug!("{}: create_region_if_needed '{}'", self, id);
         trace!(
             "{}: create_region_if_needed '{}' acquiring layout_mut",
@@ -479,7 +482,16 @@ impl Database {
         // joins this thread before the Arc is deallocated.
         // ManuallyDrop prevents the refcount decrement we never incremented.
         let db = ManuallyDrop::new(unsafe { Self(Arc::from_raw(Arc::as_ptr(&self.0))) });
+        #[cfg(feature = "verif")]
+        let f = move |db: &Self| {
+            verif::emit(&verif::Event::ThreadStart);
+            let r = f(db);
+            verif::emit(&verif::Event::ThreadEnd);
+            r
+        };
         self.0.bg_tasks.lock().push(thread::spawn(move || f(&db)));
+        #[cfg(feature = "verif")]
+        verif::emit(&verif::Event::Spawn);
     }
 
     /// Wakes any `bg_sleep` waiters and joins all pending background tasks.
@@ -490,9 +502,15 @@ impl Database {
             cv.notify_all();
         }
         let handles: Vec<_> = self.0.bg_tasks.lock().drain(..).collect();
+        #[cfg(feature = "verif")]
+        verif::emit(&verif::Event::JoinPre {
+            pending: handles.len(),
+        });
         for handle in handles {
             handle.join().unwrap()?;
         }
+        #[cfg(feature = "verif")]
+        verif::emit(&verif::Event::JoinDone);
         *self.0.bg_sync.0.lock() = false;
         Ok(())
     }
@@ -529,6 +547,9 @@ impl Database {
             let len = meta.len();
             let reserved = meta.reserved();
             let ceil_len = Self::ceil_number_to_page_size_multiple(len);
+
+            #[cfg(feature = "verif")]
+            verif::point("punch_holes:after_len_check");
 
             if ceil_len < reserved {
                 let start = rstart + ceil_len;
